@@ -37,6 +37,9 @@ type CrashCase struct {
 	AutoSync bool  `json:"autosync"`
 	Ops      []COp `json:"ops"`
 	Power    bool  `json:"power"` // C06 mode
+	// AnyTimes: message times are arbitrary (also decreasing); the time view of the recovered image is then
+	// not judged (C10 defines it for non-decreasing times only), everything else is
+	AnyTimes bool `json:"any_times,omitempty"`
 }
 
 func (c *CrashCase) options(v1 bool) klevdb.Options {
@@ -618,6 +621,9 @@ func (e *CrashEnv) CheckImage(ic imageCtx) {
 		vm.Append(FromMessage(g))
 	}
 	vm.Next = next
+	if e.C.AnyTimes {
+		vm.Mono = false // the history was not monotone even if the survivors look it: carried index timestamps
+	}
 	ve := &Env{P: &Profile{Name: e.Prop, Own: own("views")}, Cfg: HConfig{KeyIndex: e.C.Keys, TimeIndex: e.C.Times}, Dir: e.Img, M: vm, St: e.St, flags: map[string]bool{}, Step: ic.si}
 	if v := protect(func() {
 		ve.observeWith(l, e.Img, obsTags{get: "views", key: "views", time: "views", stat: "views", consume: ""}, "recovered image")
